@@ -96,6 +96,7 @@ class Path:
         self.ver: Dict[str, int] = {}     # local name -> number of assignments so far
         self.heap: Dict[str, Term] = {}   # "<object key>.<attr>" -> value, for attributes of plain objects built on this path
         self.locks: Tuple[str, ...] = ()  # keys of the locks taken by .acquire() and not yet released
+        self.tested: Dict[Tuple[str, int], bool] = {}   # (local name, its version) -> how a test of that local came out on this path
 
     def derive(self, env, events, conds) -> "Path":
         """A path of another activation (callee, handler, caller continuation) on the same execution."""
@@ -110,6 +111,7 @@ class Path:
         p.ver = dict(self.ver)
         p.heap = dict(self.heap)
         p.locks = self.locks
+        p.tested = dict(self.tested)
         p.status = self.status
         p.ret = self.ret
         p.exc = self.exc
@@ -152,7 +154,7 @@ class Ctx:
         self.steps = 0
         self.max_steps = 400000
         self.t0 = None              # wall-clock start of the analysis run with this context (set on the first statement)
-        self.max_seconds = float(os.environ.get("SA_MAX_SECONDS_PER_ANALYSIS", "120"))
+        self.max_seconds = float(os.environ.get("SA_MAX_SECONDS_PER_ANALYSIS", "45"))
         self.attr_kind_cache: Dict[Tuple[str, str], str] = {}
         self.init_cache: Dict[str, object] = {}
 
@@ -254,9 +256,17 @@ class Frame:
         return kind
 
     # ------------------------------------------------------------- running
+    def _check_time(self) -> None:
+        import time as _time
+        if self.ctx.t0 is None:
+            self.ctx.t0 = _time.time()
+        elif _time.time() - self.ctx.t0 > self.ctx.max_seconds:
+            raise AnalysisError(f"interpreter time budget ({self.ctx.max_seconds:.0f} s) exhausted in {self.fname} (path explosion)")
+
     def run_function(self, fn: ast.FunctionDef, bound: Dict[str, Term], p: Path) -> List[Path]:
         """Execute ``fn`` with parameters bound; returns caller-visible paths
         (status ret|raise|live->ret None)."""
+        self._check_time()      # (also here: with very many long paths the time goes into comparing them, not into statements)
         callee = p.derive(bound, p.events, p.conds)
         is_gen = any(isinstance(x, (ast.Yield, ast.YieldFrom)) for x in _walk_own(fn))
         straight = is_gen and not any(isinstance(y, (ast.Yield, ast.YieldFrom)) for x in _walk_own(fn)
@@ -309,6 +319,7 @@ class Frame:
                 else:
                     q.ret = Seq([])             # nothing was yielded on this path: an empty iterable
             out.append(q)
+        self._check_time()
         return dedupe(out)
 
     def block(self, stmts, paths: List[Path]) -> List[Path]:
@@ -366,6 +377,22 @@ class Frame:
         if isinstance(st, ast.Expr):
             return [q for q, _ in self.expr(st.value, p)]
         if isinstance(st, ast.If):
+            # ``if not x: x = {}`` / ``if x is None: x = {}`` is ``x = x or {}`` written as a statement: the default for an argument
+            # that was not given (the mapping the caller handed in, or an empty one)
+            if not st.orelse and len(st.body) == 1 and isinstance(st.body[0], ast.Assign) and len(st.body[0].targets) == 1 and isinstance(st.body[0].targets[0], ast.Name):
+                nm_, v_ = st.body[0].targets[0].id, st.body[0].value
+                empty_ = (isinstance(v_, (ast.Dict, ast.List)) and not (v_.keys if isinstance(v_, ast.Dict) else v_.elts)) or (
+                    isinstance(v_, ast.Call) and isinstance(v_.func, ast.Name) and v_.func.id in ("dict", "list") and not v_.args and not v_.keywords)
+                t_ = st.test
+                asks_ = (isinstance(t_, ast.UnaryOp) and isinstance(t_.op, ast.Not) and isinstance(t_.operand, ast.Name) and t_.operand.id == nm_) or (
+                    isinstance(t_, ast.Compare) and len(t_.ops) == 1 and isinstance(t_.ops[0], ast.Is) and isinstance(t_.left, ast.Name) and t_.left.id == nm_
+                    and isinstance(t_.comparators[0], ast.Constant) and t_.comparators[0].value is None)
+                if empty_ and asks_ and nm_ in p.env:
+                    alt = ast.Assign(targets=[ast.Name(id=nm_, ctx=ast.Store())],
+                                     value=ast.BoolOp(op=ast.Or(), values=[ast.Name(id=nm_, ctx=ast.Load()), v_]), lineno=st.lineno)
+                    ast.copy_location(alt, st)
+                    ast.fix_missing_locations(alt)
+                    return self.stmt(alt, p)
             return self.do_if(st, p)
         if isinstance(st, (ast.For, ast.AsyncFor)):
             return self.do_for(st, p)
@@ -948,6 +975,10 @@ class Frame:
                 return bool(t.v) if not isinstance(t.v, _Sentinel) else True
             if isinstance(t, New):
                 return True
+            # a field declared as an expression / effect / cache object of the library is truthy (as in ``x or default``; R-TB keeps it so)
+            dc_ = getattr(t, "declared", None) if isinstance(t, Child) else None
+            if dc_ is not None and any(dc_.name == b_ or dc_.is_subclass_of(b_) for b_ in ("Evaluatable", "Effect", "Cache")):
+                return True
         return None
 
     @staticmethod
@@ -1205,6 +1236,22 @@ class Frame:
         out: List[Tuple[Path, Optional[bool]]] = []
         d0 = self.decide(test, p)
         txt = ast.unparse(test)
+        # a local tested twice without having been re-bound in between comes out the same way (``known = key in table`` …
+        # ``if not (known or …)`` … ``x if known else y``)
+        name_key = (test.id, p.ver.get(test.id, 0)) if isinstance(test, ast.Name) and test.id in p.env else None
+        if name_key is not None:
+            # (only for a local that holds the outcome of a comparison / test: a list or dictionary tested for emptiness changes
+            # under the same name)
+            bt_ = p.env[test.id]
+            if not (isinstance(bt_, Sym) and (bt_.head.startswith("cmp:") or bt_.head in ("and", "or", "unop:Not", "call:isinstance", "call:hasattr", "call:callable"))):
+                name_key = None
+        if name_key is not None:
+            # … and only while the local still stands for the expression it was assigned from (nothing that expression reads re-bound since)
+            src_ = p.src.get(test.id)
+            if src_ is None or test.id in src_[2] or not all(p.ver.get(n_, 0) == v_ for n_, v_ in src_[2].items()):
+                name_key = None
+        if d0 is None and name_key is not None and name_key in p.tested:
+            d0 = p.tested[name_key]
         if isinstance(test, ast.Name) and test.id in p.src:
             # a test kept in a local stands for the expression it was assigned from — as long as nothing that
             # expression reads has been re-assigned since
@@ -1228,11 +1275,15 @@ class Frame:
                 a = q.fork() if d is None else q
                 a.conds.append((txt, True, tt.key()))
                 self.narrow(test, True, a)
+                if name_key is not None:
+                    a.tested[name_key] = True
                 out.append((a, True))
             if d is not True:
                 b = q.fork() if d is None else q
                 b.conds.append((txt, False, tt.key()))
                 self.narrow(test, False, b)
+                if name_key is not None:
+                    b.tested[name_key] = False
                 out.append((b, False))
         return out
 
@@ -1658,7 +1709,7 @@ class Frame:
             if r is not None:
                 owner, fn = r
                 decos = [ast.unparse(d) for d in fn.decorator_list]
-                if "property" in decos:
+                if "property" in decos or any(d_.split(".")[-1] == "cached_property" for d_ in decos):
                     return self.inline(owner.module, self.cls, fn, self.selfterm, self.selfattrs, {}, p, node)
                 if "staticmethod" in decos:
                     return [(p, Fn("func", (owner, None, None, owner.module), fn))]
@@ -1710,7 +1761,7 @@ class Frame:
             if r is not None:
                 owner, fn = r
                 decos = [ast.unparse(d) for d in fn.decorator_list]
-                if "property" in decos:
+                if "property" in decos or any(d_.split(".")[-1] == "cached_property" for d_ in decos):
                     return self.inline(owner.module, t.cls, fn, t, t.attrs, {}, p, node)
                 return [(p, Fn("method", (t.cls, t, t.attrs, owner.module), fn))]
             if attr in t.attrs:
@@ -1773,7 +1824,7 @@ class Frame:
                         return [(p, v)]
             if ci is not None:
                 r = ci.find_method(attr)
-                if r is not None and any(ast.unparse(d) == "property" for d in r[1].decorator_list):
+                if r is not None and any(ast.unparse(d).split(".")[-1] in ("property", "cached_property") for d in r[1].decorator_list):
                     first = [a.arg for a in r[1].args.posonlyargs + r[1].args.args][:1]
                     return self.inline(r[0].module, None, r[1], None, None, {first[0]: t} if first else {}, p, node)
                 if r is None:
@@ -1961,6 +2012,11 @@ class Frame:
                 for q, ts in self.seq([e.left] + e.comparators, p)]
 
     def e_IfExp(self, e, p):
+        if isinstance(e.orelse, (ast.Dict, ast.List)) and not (e.orelse.keys if isinstance(e.orelse, ast.Dict) else e.orelse.elts) \
+                and isinstance(e.test, ast.Name) and isinstance(e.body, ast.Name) and e.test.id == e.body.id:
+            alt = ast.BoolOp(op=ast.Or(), values=[e.body, e.orelse])        # ``x if x else {}`` is ``x or {}``
+            ast.copy_location(alt, e)
+            return self.e_BoolOp(alt, p)
         out = []
         for q, v in self.branch(e.test, p):
             if v is None:
@@ -2269,6 +2325,8 @@ class Frame:
             for a, t in zip(e.args, ts):
                 if isinstance(a, ast.Starred) and isinstance(t, Seq) and getattr(t, "kind", "") != "gen" and not any(isinstance(i, Sym) and i.head == "star" for i in t.items):
                     pos.extend(t.items)     # *args of a known tuple: the arguments themselves
+                elif isinstance(a, ast.Starred) and self.record_fields(t) is not None:
+                    pos.extend(v_ for _, v_ in self.record_fields(t))       # *record: its fields in declaration order
                 else:
                     pos.append(Sym("star", (t,)) if isinstance(a, ast.Starred) else t)
             kw: Dict[str, Term] = {}
@@ -2437,10 +2495,31 @@ class Frame:
                     del q.env[k]
         return out
 
+    def record_fields(self, t: Term) -> Optional[List[Tuple[str, Term]]]:
+        """(field, value) pairs, in declaration order, of a private ``NamedTuple`` record built by the analysed code with every field known."""
+        if not (isinstance(t, Sym) and t.head.startswith("new:")):
+            return None
+        ci = self.plain_class(t)
+        if ci is None or ci.find_method("__init__") is not None or "NamedTuple" not in [b.split(".")[-1] for b in ci.external_bases()]:
+            return None
+        names = [st.target.id for st in ci.node.body if isinstance(st, ast.AnnAssign) and isinstance(st.target, ast.Name)]
+        out = []
+        for n_ in names:
+            v = self.record_field(ci, t, n_)
+            if v is None:
+                return None
+            out.append((n_, v))
+        return out
+
     def call_term(self, callee: Term, pos: List[Term], kw: Dict[str, Term], p: Path, node: ast.Call):
         line = node.lineno
         if isinstance(callee, Fn):
             return self.call_fn(callee, pos, kw, p, node)
+        if isinstance(callee, Sym) and callee.head == "attr:_replace" and len(callee.args) == 1 and not pos and "**" not in kw:
+            # ``record._replace(field=value)``: the same record with those fields exchanged
+            flds = self.record_fields(callee.args[0])
+            if flds is not None and all(k in dict(flds) for k in kw):
+                return [(p, Sym(callee.args[0].head, tuple(kw.get(n_, v_) for n_, v_ in flds)))]
         if isinstance(callee, Bound):
             name = callee.name
             if name == "values" and not pos:
@@ -2577,6 +2656,10 @@ class Frame:
                         return [(p, Bound(tgt, nm.v))]
                     if isinstance(tgt, New):
                         return self.get_attr(tgt, nm.v, p, node)
+                    if tgt is self.selfterm and self.selfterm is not None:
+                        return self.self_attr(nm.v, p, node)         # getattr(self, "name") is self.name
+                    if isinstance(tgt, Child) and tgt.key() == SELF.key() and getattr(self.ctx, "root_cls", None) is not None:
+                        return self.get_attr(tgt, nm.v, p, node)
                     return [(p, Child(f"{tgt.path}.{nm.v}"))]
                 return [(p, Sym(f"attr:{nm.v}", (tgt,)))]
             if tgt is self.selfterm or (isinstance(tgt, Sym) and tgt.head == "classof") or tgt.key() in (SELF.key(), "Child(<instance>)"):
@@ -2650,6 +2733,8 @@ class Frame:
             if pos and isinstance(pos[0], Sym) and pos[0].head in ("ext", "name", "class", "partial") and "**" not in kw:
                 # partial(f, *a, **k) of a function defined elsewhere: calling it calls f with the arguments joined
                 return [(p, Sym("partial", (pos[0],) + tuple(pos[1:]) + tuple(Sym("kw:" + k, (v,)) for k, v in kw.items())))]
+        if short == "vars" and name in ("vars", "builtins.vars") and len(pos) == 1 and not kw:
+            return self.get_attr(pos[0], "__dict__", p, node) if not (pos[0] is self.selfterm and self.selfterm is not None) else self.self_attr("__dict__", p, node)
         if short in ("isinstance", "callable", "hasattr", "len", "str", "repr", "bool", "id", "type", "dir", "print"):
             return [(p, Sym("call:" + short, tuple(pos)))]
         if callee.args and not callee.text:
